@@ -277,3 +277,7 @@ META = dict(
     trusted_base=["A-REAL", "A-PY", "A-NP-ALLOC (np.array copies)", "A-ARGMIN", "A-JSON-FLOAT (bounded only)", "PyVC engine + z3/cvc5"],
     assumptions=["A-REAL", "A-PY", "A-NP-ALLOC", "A-ARGMIN", "A-JSON-FLOAT"],
 )
+
+# is_similar / __eq__ of TimeSeries and SeismicRecording3C (contracts/similar.py): the recording's constructor refuses components that are not similar
+import contracts.similar as _SIM
+TASKS += [t for t in _SIM.TASKS if ".timeseries." in t.label or ".seismic_recording_3c." in t.label]
